@@ -270,3 +270,132 @@ Theorem C15_model_is_source_reshape :
                 d (Z.of_nat nr) (Z.of_nat nc) r c
     = option_map (fun m : mat T => (Z.of_nat (nrows m), Z.of_nat (ncols m), data m)) (reshape (mkMat nr nc d) r c).
 Proof. exact @tiea_reshape. Qed.
+
+(** ** Tie A for the constructors and slice utilities of utils.rs (tools/tiea/ctor_loops.py, tools/tiea/linalg_loops.py):
+    the generated functions are the Rust bodies statement for statement (flat lists, [rs_get] / [rs_set] / [rs_slice], index
+    arithmetic in [Z], a panic = [None]); each equals the model of Model/Shape.v for every carrier and every input. *)
+From Compute Require Import Base.RsExprMut Generated.ctor_loops Proofs.TieA_linalg_loops Proofs.TieA_ctor_loops.
+(** [vec![0.; n * n]] passes the allocation's capacity check (2^60 - 1 cells); every [new[i * n + i] = a[i]] is in bounds *)
+Theorem C15_model_is_source_diag_matrix :
+  forall (T : Type) (O : Ops T) (a : list T), (Z.of_nat (length a * length a) <= 1152921504606846975)%Z ->
+    src_diag_matrix O a = Some (diag_matrix O a).
+Proof. exact @tiea_diag_matrix. Qed.
+(** the [i32] loop counters, [(i - j).abs() as usize] = the model's [absdiff], all reads and writes in bounds *)
+Theorem C15_model_is_source_toeplitz :
+  forall (T : Type) (O : Ops T) (x : list T), (Z.of_nat (length x * length x) <= 1152921504606846975)%Z ->
+    src_toeplitz O x = Some (toeplitz O x).
+Proof. exact @tiea_toeplitz. Qed.
+Theorem C15_model_is_source_vandermonde :
+  forall (T : Type) (O : Ops T) (x : list T) (n : nat), src_vandermonde O x (Z.of_nat n) = vandermonde O x n.
+Proof. exact @tiea_vandermonde. Qed.
+(** [is_matrix(x, rows).unwrap()] (zero rows: division by zero) and the slices [&x[i * ncols..(i + 1) * ncols]] *)
+Theorem C15_model_is_source_design :
+  forall (T : Type) (O : Ops T) (x : list T) (rows : nat), src_design O x (Z.of_nat rows) = design O x rows.
+Proof. exact @tiea_design. Qed.
+Theorem C15_model_is_source_linspace :
+  forall (T : Type) (O : Ops T) (a b : T) (n : nat), src_linspace O a b (Z.of_nat n) = linspace O a b n.
+Proof. exact @tiea_linspace. Qed.
+(** rule R4 of the translator: [n as usize] for the f64 [n = ceil((stop - start) / step)] is [Z.max 0 (truncZ n)] *)
+Theorem C15_model_is_source_arange :
+  forall (T : Type) (O : Ops T) (start stop step : T), src_arange O start stop step = arange O start stop step.
+Proof. exact @tiea_arange. Qed.
+(** the flag loop (no early exit) is the model's [forallb]; an empty matrix with a positive number of rows panics on [m[0]] *)
+Theorem C15_model_is_source_is_design :
+  forall (T : Type) (O : Ops T) (m : list T) (nr : nat), src_is_design O m (Z.of_nat nr) = is_design O m nr.
+Proof. exact @tiea_is_design. Qed.
+(** [transpose], [diag], [is_symmetric] on slices (generated text: Generated/linalg_loops.v; [is_square_z] is the crate's
+    [is_square], an [f32] square root outside the translated subset, as the models see it) *)
+Theorem C15_model_is_source_transpose :
+  forall (T : Type) (O : Ops T) (a : list T) (nr : nat),
+    Generated.linalg_loops.src_transpose O a (Z.of_nat nr) = transpose_flat O a nr.
+Proof. exact @tiea_transpose_flat. Qed.
+Theorem C15_model_is_source_diag_u :
+  forall (T : Type) (O : Ops T) (a : list T), Generated.linalg_loops.src_diag O is_square_z a = diag_u O a.
+Proof. exact @tiea_diag. Qed.
+Theorem C15_model_is_source_is_symmetric_u :
+  forall (T : Type) (O : Ops T) (m : list T), Generated.linalg_loops.src_is_symmetric O is_square_z m = is_symmetric_u O m.
+Proof. exact @tiea_is_symmetric_u. Qed.
+
+(** ** Tie A for the structural methods of [Matrix] beyond reshape (tools/tiea/matrix_loops.py): a method takes the fields
+    (data, nrows, ncols) of [self]; a [Matrix] value ([other], results) is [zmat m = (nrows, ncols, data)]; a [&mut self] method
+    returns the fields after the call, [zfields m = (data, nrows, ncols)].  [Matrix::new] ([new_z], refused by the translator:
+    TryInto + match), [Self::zeros] ([zeros_z]) and utils' [transpose] ([transpose_z], tied above) are parameters of the
+    generated text, instantiated by the models.  Where the model reads with a default and the source would panic, the struct
+    invariant [in_bounds] ([nrows * ncols <= len(data)], enforced by [Matrix::new]) is a hypothesis.  [apply_along_row] /
+    [apply_along_col] ([iter_mut().for_each], [chunks_mut]) are outside the subset (the target checks they are still refused). *)
+From Compute Require Import Generated.matrix_loops Proofs.TieA_matrix_loops.
+(** [self[i]] = [Index<usize>::index]: the assertion and the checked slice *)
+Theorem C15_model_is_source_index :
+  forall (T : Type) (O : Ops T) (nr nc : nat) (dat : list T) (i : nat),
+    src_index O dat (Z.of_nat nr) (Z.of_nat nc) (Z.of_nat i) = row_slice (mkMat nr nc dat) i.
+Proof. exact @tiea_index. Qed.
+Theorem C15_model_is_source_get_row :
+  forall (T : Type) (O : Ops T) (nr nc : nat) (dat : list T) (i : nat),
+    src_get_row_as_vector O dat (Z.of_nat nr) (Z.of_nat nc) (Z.of_nat i) = row_slice (mkMat nr nc dat) i.
+Proof. exact @tiea_get_row. Qed.
+Theorem C15_model_is_source_get_col :
+  forall (T : Type) (O : Ops T) (nr nc : nat) (dat : list T) (j : nat),
+    in_bounds (mkMat nr nc dat) = true -> (Z.of_nat nr <= 1152921504606846975)%Z ->
+    src_get_col_as_vector O dat (Z.of_nat nr) (Z.of_nat nc) (Z.of_nat j) = get_col O (mkMat nr nc dat) j.
+Proof. exact @tiea_get_col. Qed.
+Theorem C15_model_is_source_is_square :
+  forall (T : Type) (O : Ops T) (nr nc : nat) (dat : list T),
+    matrix_loops.src_is_square O dat (Z.of_nat nr) (Z.of_nat nc) = is_square (mkMat nr nc dat).
+Proof. exact @tiea_is_square. Qed.
+Theorem C15_model_is_source_is_symmetric :
+  forall (T : Type) (O : Ops T) (nr nc : nat) (dat : list T), in_bounds (mkMat nr nc dat) = true ->
+    matrix_loops.src_is_symmetric O dat (Z.of_nat nr) (Z.of_nat nc) = Some (is_symmetric O (mkMat nr nc dat)).
+Proof. exact @tiea_is_symmetric_m. Qed.
+Theorem C15_model_is_source_is_upper_triangular :
+  forall (T : Type) (O : Ops T) (nr nc : nat) (dat : list T), in_bounds (mkMat nr nc dat) = true ->
+    src_is_upper_triangular O dat (Z.of_nat nr) (Z.of_nat nc) = Some (is_upper_triangular O (mkMat nr nc dat)).
+Proof. exact @tiea_is_upper_triangular. Qed.
+Theorem C15_model_is_source_is_lower_triangular :
+  forall (T : Type) (O : Ops T) (nr nc : nat) (dat : list T), in_bounds (mkMat nr nc dat) = true ->
+    src_is_lower_triangular O dat (Z.of_nat nr) (Z.of_nat nc) = Some (is_lower_triangular O (mkMat nr nc dat)).
+Proof. exact @tiea_is_lower_triangular. Qed.
+(** the panic of the out-of-bounds diagonal read is the model's guard on the last index *)
+Theorem C15_model_is_source_diag :
+  forall (T : Type) (O : Ops T) (nr nc : nat) (dat : list T),
+    matrix_loops.src_diag O dat (Z.of_nat nr) (Z.of_nat nc) = diag O (mkMat nr nc dat).
+Proof. exact @tiea_diag_m. Qed.
+Theorem C15_model_is_source_flat_idx :
+  forall (T : Type) (O : Ops T) (nr nc : nat) (dat : list T) (k : nat),
+    src_flat_idx O dat (Z.of_nat nr) (Z.of_nat nc) (Z.of_nat k) = flat_idx O (mkMat nr nc dat) k.
+Proof. exact @tiea_flat_idx. Qed.
+Theorem C15_model_is_source_flat_idx_replace :
+  forall (T : Type) (O : Ops T) (nr nc : nat) (dat : list T) (k : nat) (v : T),
+    src_flat_idx_replace O dat (Z.of_nat nr) (Z.of_nat nc) (Z.of_nat k) v = option_map zfields (flat_idx_replace (mkMat nr nc dat) k v).
+Proof. exact @tiea_flat_idx_replace. Qed.
+Theorem C15_model_is_source_t :
+  forall (T : Type) (O : Ops T) (nr nc : nat) (dat : list T),
+    src_t O new_z (transpose_z O) dat (Z.of_nat nr) (Z.of_nat nc) = option_map zmat (t O (mkMat nr nc dat)).
+Proof. exact @tiea_t. Qed.
+(** [self.data = Vector::new(t); swap(&mut self.ncols, &mut self.nrows)] *)
+Theorem C15_model_is_source_t_mut :
+  forall (T : Type) (O : Ops T) (nr nc : nat) (dat : list T),
+    src_t_mut O (transpose_z O) dat (Z.of_nat nr) (Z.of_nat nc) = option_map zfields (t_mut O (mkMat nr nc dat)).
+Proof. exact @tiea_t_mut. Qed.
+Theorem C15_model_is_source_to_vec :
+  forall (T : Type) (O : Ops T) (nr nc : nat) (dat : list T), src_to_vec O dat (Z.of_nat nr) (Z.of_nat nc) = data (mkMat nr nc dat).
+Proof. exact @tiea_to_vec. Qed.
+Theorem C15_model_is_source_hcat :
+  forall (T : Type) (O : Ops T) (m o : mat T), in_bounds m = true -> in_bounds o = true ->
+    src_hcat O new_z (data m) (Z.of_nat (nrows m)) (Z.of_nat (ncols m)) (zmat o) = option_map zmat (hcat O m o).
+Proof. exact @tiea_hcat. Qed.
+Theorem C15_model_is_source_vcat :
+  forall (T : Type) (O : Ops T) (m o : mat T),
+    src_vcat O new_z (data m) (Z.of_nat (nrows m)) (Z.of_nat (ncols m)) (zmat o) = option_map zmat (vcat m o).
+Proof. exact @tiea_vcat. Qed.
+Theorem C15_model_is_source_hrepeat :
+  forall (T : Type) (O : Ops T) (nr nc : nat) (dat : list T) (n : nat), n = 0 \/ in_bounds (mkMat nr nc dat) = true ->
+    src_hrepeat O new_z dat (Z.of_nat nr) (Z.of_nat nc) (Z.of_nat n) = option_map zmat (hrepeat (mkMat nr nc dat) n).
+Proof. exact @tiea_hrepeat. Qed.
+Theorem C15_model_is_source_vrepeat :
+  forall (T : Type) (O : Ops T) (nr nc : nat) (dat : list T) (n : nat),
+    src_vrepeat O new_z dat (Z.of_nat nr) (Z.of_nat nc) (Z.of_nat n) = option_map zmat (vrepeat (mkMat nr nc dat) n).
+Proof. exact @tiea_vrepeat. Qed.
+(** the local [m] of [eye] is kept as its three fields; every [m.data[i * dims + i] = 1.] is in bounds *)
+Theorem C15_model_is_source_eye :
+  forall (T : Type) (O : Ops T) (n : nat), src_eye O (zeros_z O) (Z.of_nat n) = option_map zmat (eye O n).
+Proof. exact @tiea_eye. Qed.
